@@ -34,7 +34,11 @@ func rulesC18(c *Ctx) {
 	c09Loop(c)
 	// "whatever contexts the request and the executor carry": an executor without a context carries
 	// context.Background(), the identity MergeContexts tests
-	c01DefaultContext(c)
+	c01WithContext(c)
+	// "the context each attempt runs under still carries the caller's context values and deadline": the contexts the
+	// policies derive for an attempt (a hedge's, a timeout's child) derive from the execution's own
+	c.Rule("execution-protocol")
+	execStateMethods(c, map[string]bool{"CopyForHedge": true, "CopyForCancellable": true, "copy": true, "CopyWithResult": true})
 	// "retried exactly for the documented retryable errors": the builders' AbortOnErrors / HandleIf go through the shared
 	// registrars (one condition per listed error)
 	c12Registrars(c)
@@ -972,6 +976,35 @@ func c18GRPCRetry(c *Ctx) {
 				bad("a call without an error must not be retried")
 			}
 			continue
+		}
+		if len(fe) == 0 {
+			// status.Code(err): OK for a nil error, Unknown for an error that is no gRPC status, else the status's code.
+			// Neither OK nor Unknown is a documented retryable code (checked below on the collected set), so the three
+			// rows of the table reduce to: retried exactly when the code equals one of the constants compared with
+			cc := eventsWhere(q, func(e *Event) bool {
+				return isCall(e, "Code") && e.Idx >= q.Base && e.Fn != nil && qualName(e.Fn) == "google.golang.org/grpc/status.Code" && len(e.Args) == 1 && e.Args[0] == errP && len(e.Res) == 1
+			})
+			if len(cc) == 1 {
+				member := triF
+				for _, a := range q.State.Facts.Log {
+					a.Cond.Walk(func(t *T) {
+						if t.Op == "cmp" && t.Aux == "==" {
+							for i := 0; i < 2; i++ {
+								if k, isC := t.Args[i].IsConstInt(); isC && t.Args[1-i] == cc[0].Res[0] {
+									if q.State.Facts.Truth(ts, t) == triT {
+										codes[k] = codes[k] || got == triT
+										member = got
+									}
+								}
+							}
+						}
+					})
+				}
+				if got != member {
+					bad("a gRPC status error must be retried exactly when its code is in the retryable set")
+				}
+				continue
+			}
 		}
 		if len(fe) != 1 || fe[0].Args[0] != errP {
 			bad("the error's gRPC status must be examined (status.FromError(err))")
